@@ -94,6 +94,14 @@ def run(tier, seed):
             ds = (2021, rnd.randint(1, 12), rnd.randint(1, 28), rnd.randint(0, 23), 0, 0)
             rt = 'FREQ=DAILY;COUNT=150'
             cases.append({'uid': 'z%d_%d' % (rep, j), 'ds': rrgen.inst(ds), 'tz': True, 'rtext': rt + ' @' + zn, 'count': 0, 'until': [], 'ics': rrgen.event_ics('z%d_%d' % (rep, j), ds, [rt], tzid=zn), 'maxpop': 200, 'mode': 'p'})
+    # weekly rules (and daily ones with BYDAY) of a table calendar that run off the end of the table, every weekday named: the stream
+    # ends there, within the work budget
+    for k in range(120 if tier == 'thorough' else 24):
+        sc, (y0, m0) = rnd.choice([('HIJRI.UMMULQURA', (2077, 10)), ('HIJRI.DIYANET', (2022, 11)), ('HIJRI.UMMULQURA', (2077, 11)), ('HIJRI.DIYANET', (2022, 12))])
+        ds = (y0, m0, rnd.randint(1, 16)) + rnd.choice([(), (6, 30, 0)])
+        wdl = rnd.choice(['MO,TU,WE,TH,FR,SA,SU', 'SA,SU', 'FR', 'MO,WE,FR,SU', 'TU,TH,SA'])
+        rt = '%s;SCALE=%s;BYDAY=%s' % (rnd.choice(['FREQ=WEEKLY', 'FREQ=WEEKLY', 'FREQ=DAILY', 'FREQ=WEEKLY;INTERVAL=2']), sc, wdl)
+        cases.append({'uid': 'te%d' % k, 'ds': rrgen.inst(ds), 'tz': False, 'rtext': rt, 'count': 0, 'until': [], 'ics': rrgen.event_ics('te%d' % k, ds, [rt]), 'maxpop': 130, 'mode': rnd.choice('np')})
     calls = []
     for k in range(n):
         y = rnd.choice([1900, 1901, 1902, 1970, 2000, 2037, 2038, 2077, 2097, 2098, 2099] + rrgen.year_types()); m = rnd.randint(1, 12); d = rnd.choice([1, 28, 29, 30, 31]); d = min(d, rrgen.dim(y, m))
